@@ -8,8 +8,15 @@ macros, and compiled as C (SimTK_Real = double).
                          CBMC has no loop-contract syntax: textual loop-contract transformation at the unique loop head L4
                          (base / havoc {il, iu, *l} / assume invariant / body / step + decreases / cut), specs/C41spline/spline_pre.h.
   spline.cover[.cut]   : reachability guards (every exit class of search_ reachable; the step obligations reachable).
-  spline.bounded.splder: BOUNDED stand-in (see SPLDER_BOUND) for the index / loop skeleton of SimTK_splder_ with the floating-point
-                         arithmetic abstracted (built only if the cut succeeds; never counted as proved).
+  spline.bounded.splder.m<M>n<N>: BOUNDED stand-ins (never counted as proved; SPLDER_CASES, one unit per half order m and knot count n, any ider <= 2m,
+                         stride <= 2, any interval L allowed by the contract of search_, loops unwound with --unwinding-assertions) for the INDEX / LOOP
+                         SKELETON of SimTK_splder_: every array access of the real code stays (q has exactly 2m, x exactly n, c exactly coffset*(n-1)+1
+                         entries: an index off by one is a bounds failure), the five arithmetic right-hand sides are replaced by pure stubs with an
+                         arbitrary result, search_ is used BY CONTRACT.  Ghost hooks count the derivative sweeps and record, for an arbitrary
+                         (sweep i, knot j), whether / over which knot pair entry j is differenced; the specification (spline_harness.h) is written from
+                         the B-spline derivative recurrence: differenced exactly once iff L-2m+i < j <= L and X(j), X(j+2m-i) both exist.
+                         NOT a value-level comparison with de Boor: the floating-point content is exercised natively only (replay driver).
+  spline.cover.splder  : reachability guard of that harness.
 
 add_jobs(ctx, J) appends the units; replay(ctx, ob) is the replayer for units `spline.*`."""
 import os, re
@@ -65,6 +72,32 @@ def search_text(ctx):
     hook_after(r, "textual loop-contract transformation at the loop head L4 (base/havoc{il,iu,*l}/assume/step/decreases/cut; see spline_pre.h)",
                r"\bL4:", "SEARCH_BISECT_HEAD", 1)
     ctx.add_function(GCVSPL_CPP, "search_", c.start, c.end, c.text, "M2 (C as is; induction cut at the goto-loop head)", r.dropped, r.log)
+    return ("#if defined(SPL_BOUNDED)\n#define search_ search_body_unused_   /* SimTK_splder_ is verified against the CONTRACT of search_ (spline_contracts.h) */\n#endif\n"
+            + " ".join(c.header.split()) + "\n" + r.text + "\n#if defined(SPL_BOUNDED)\n#undef search_\nSEARCH_BY_CONTRACT\n#endif\n")
+
+
+FLOAT_RULE = "symbolic float product/quotient -> body-less pure stub (result arbitrary; the array reads and the written slot stay in the code): "
+
+
+def splder_text(ctx):
+    """SimTK_splder_: index / loop skeleton.  Every array access stays as it is; the five arithmetic right-hand sides are replaced by
+    body-less pure stubs (arbitrary result); ghost hooks count the differencing sweeps and record which q entry is differenced with which knot pair."""
+    c = cut_function(GCVSPL_CPP, SPLDER_ANCHOR, "SimTK_splder_", expect_total=1)
+    r = Rewriter("{" + c.body + "}", "SimTK_splder_")
+    S = r.sub
+    S(FLOAT_RULE + "divided difference of the derivative sweep (+ ghost hook recording i, j, j + mi; assigns ghost variables only)",
+      r"q\[jm\] = \(q\[jm\] - q\[jm - 1\]\) / \(x\[j \+ mi\] - x\[j\]\);",
+      "q[jm] = vf_divdiff(q[jm], q[jm - 1], x[j + mi], x[j]); SPLDER_DIFF_HOOK", 1)
+    S(FLOAT_RULE + "de Boor step, right end", r"q\[ir\] = q\[ir - 1\] \+ \(tt - x\[jj\]\) \* q\[ir\];", "q[ir] = vf_deboor_r(q[ir - 1], tt, x[jj], q[ir]);", 1)
+    S(FLOAT_RULE + "de Boor step, interior", r"q\[ir\] = z \+ \(xjki - tt\) \* \(q\[ir - 1\] - z\) / \(xjki - x\[jj\]\)\s*;", "q[ir] = vf_deboor(z, xjki, tt, q[ir - 1], x[jj]);", 1)
+    S(FLOAT_RULE + "de Boor step, left end", r"q\[ir\] \+= \(x\[jj\] - tt\) \* q\[ir - 1\];", "q[ir] = vf_deboor_l(q[ir], x[jj], tt, q[ir - 1]);", 1)
+    S(FLOAT_RULE + "factorial factor", r"z \*= j;", "z = vf_mul_int(z, j);", 1)
+    left = [l.strip() for l in r.text.splitlines() if re.search(r"[\w\]\)]\s*[*/]\s*[\w\(]", l.replace("coffset*(", "coffset_times("))]
+    if left:
+        raise ExtractionError("SimTK_splder_: multiplication/division left after the abstraction rules (tree differs): %s" % left[:3])
+    hook_after(r, "ghost hook at the start of the body of the derivative-sweep loop (assigns ghost variables only)",
+               r"i__1 = \*ider;[^{}]*?for \(i = 1; i <= i__1; \+\+i\) \{", "SPLDER_SWEEP_HOOK", 1)
+    ctx.add_function(GCVSPL_CPP, "SimTK_splder_", c.start, c.end, c.text, "M2 (C as is; arithmetic right-hand sides abstracted; ghost hooks)", r.dropped, r.log)
     return " ".join(c.header.split()) + "\n" + r.text + "\n"
 
 
@@ -72,17 +105,19 @@ def build_unit(ctx):
     parts = ['#include "%s/spline_pre.h"' % SPEC, macros_text(ctx), '#include "%s/spline_contracts.h"' % SPEC, search_text(ctx)]
     has_splder = False
     try:
-        import part_c41_splder as PS          # optional second part (bounded index skeleton of SimTK_splder_)
-        parts.append(PS.splder_text(ctx))
+        parts.append(splder_text(ctx))
         has_splder = True
-    except ImportError:
-        pass
+    except ExtractionError as e:
+        ctx.undecide("extraction (SimTK_splder_ skeleton; the search_ unit is not affected): %s" % e)
     parts.append('#include "%s/spline_harness.h"' % SPEC)
     path = os.path.join(ctx.out, "spline_unit.c")
     open(path, "w").write("\n".join(parts))
     return path, has_splder
 
 
+SPLDER_BOUND = ("half order m = %d (degree %d), n = %d knots, derivative order 0 <= ider <= 2m, stride coffset <= 2, arbitrary interval L from the contract of search_, loops unwound "
+                "with --unwinding-assertions; floating-point right-hand sides arbitrary (index / loop skeleton only)")
+SPLDER_CASES = [(1, 2), (1, 4), (2, 4), (2, 6), (3, 6)]      # quick tier; the thorough tier adds (3, 8) (about 150 s)
 ARGS = ["--bounds-check", "--pointer-check", "--signed-overflow-check", "--div-by-zero-check", "--object-bits", "8"]
 CEX = ("n", "t", "l", "gj", "il", "iu", "x")
 
@@ -97,11 +132,26 @@ def add_jobs(ctx, J):
     J(cover_unit, "spline.cover", [unit_c], "h_search_cover", cc_args=["-DSPL_COVER"], cbmc_args=["--unwind", "8"], expect_min=5, function="search_ (reachability of every exit class)")
     J(cover_unit, "spline.cover.cut", [unit_c], "h_search_cover", cc_args=["-DSPL_COVER_CUT"], cbmc_args=["--unwind", "8"], expect_min=4,
       function="search_ (reachability of the induction step)")
+    if has_splder:
+        cases = SPLDER_CASES + ([(3, 8)] if ctx.tier == "thorough" else [])
+        for (m, n) in cases:
+            cc = ["-DSPL_BOUNDED", "-DSPL_M=%d" % m, "-DSPL_N=%d" % n]
+            uw = str(max(n, 2 * m) + 2)
+            J(cbmc_unit, "spline.bounded.splder.m%dn%d" % (m, n), [unit_c], "h_splder_bounded", no_dfcc=True, cc_args=cc,
+              cbmc_args=ARGS + ["--unwind", uw, "--unwinding-assertions"], bounded=SPLDER_BOUND % (m, 2 * m - 1, n),
+              require_props=[r"h_splder_bounded\.assertion\.6$", r"SimTK_splder_\.pointer_dereference", r"search_\.assertion\.1$"], min_obligations=40,
+              function="SimTK_splder_", timeout=600, cex_vars=("m", "n", "ider", "coffset", "t", "L", "g_i", "g_j", "g_hits", "g_sweeps", "g_hi_knot"))
+        m, n = 2, 6
+        J(cover_unit, "spline.cover.splder", [unit_c], "h_splder_bounded", cc_args=["-DSPL_BOUNDED", "-DSPL_BOUNDED_COVER", "-DSPL_M=%d" % m, "-DSPL_N=%d" % n],
+          cbmc_args=["--unwind", str(max(n, 2 * m) + 2)], expect_min=5, function="SimTK_splder_ (reachability: interior, both ends, maximal order)")
     ctx.extra["spline_part"] = dict(search_loop="goto loop L3/L4, induction cut at L4", splder_skeleton=has_splder)
     ctx.assume("spline unit: SimTK_Real is double (default precision); the knot array x[0..n-1], *n, *t, *l are separate objects; 1 <= n < 2^30 "
                "(beyond that `(il + iu) / 2` in search_ may overflow int); t is not NaN; x[0], x[n-1] are not NaN (a NaN there, or a NaN t, makes search_ read x[-1] or x[n])")
     ctx.assume("spline unit: knot type invariant in ghost-index form: for an arbitrary gj, x[gj] is not NaN and x[gj] < x[gj+1], and x[0] <= x[n-1]; the postcondition X(L) <= t < X(L+1) is proved in "
                "the comparison form not(t < X(L)) and not(t >= X(L+1)) for every array and in the documented form for the arbitrary NaN-free element gj")
+    if has_splder:
+        ctx.assume("spline unit (bounded SimTK_splder_ skeleton): q, x, c are separate arrays of exactly 2m, n, coffset*(n-1)+1 doubles; knots strictly increasing and not NaN; "
+                   "the arithmetic right-hand sides (divided difference, three de Boor steps, factorial factor) return arbitrary values; search_ is replaced by its contract")
     ctx.trust("spline unit: the textual loop-contract transformation at the goto-loop head L4 of search_ (specs/C41spline/spline_pre.h; the extractor checks that L3 falls "
               "through into L4 by a single assignment to iu, so that L4 is the unique loop head) and the rewrite log in extraction_report.json")
     ctx.not_decided += ["splines: the floating-point content of SimTK_splder_ (de Boor recurrence, divided differences), SimTK_gcvspl_ (fit: basis_, prep_, bandet_, bansol_, "
